@@ -56,7 +56,7 @@ def extra_checks(ctx):
     from harness import core
     from harness.models import world as impl_world
     rng = random.Random(ctx.seed * 7907 + 2)
-    n = 150 if ctx.tier == 'quick' else 3000
+    n = 150 if ctx.tier == "quick" else 1000
     corpus = sorted((core.VERIF / 'corpus' / 'C02' / 'forget').glob('*.scn'))
     scen = [[ln for ln in f.read_text().splitlines() if ln.strip() and not ln.startswith('#')] for f in corpus] + \
         list(_ForgetStream.generate(rng, n))
